@@ -279,6 +279,11 @@ class Worker(threading.Thread):
                 self.job()
             except Exception as x:
                 log.exception("unhandled exception from job in worker thread %s: %s", self.name, x)
+            except BaseException:
+                # the job ends this thread (SystemExit, KeyboardInterrupt...): hand the pool slot back first
+                self.job = None
+                self.pool.worker_exited(self)
+                raise
             self.job = None
             self.pool.notify_done(self)
         self.pool = None
@@ -355,6 +360,12 @@ class Pool(object):
             self.busy.add(worker)
             worker.process(job)
             log.debug("worker counts: %d busy, %d idle", len(self.busy), len(self.idle))
+
+    def worker_exited(self, worker):
+        """a worker thread is ending outside of the pool's control, it no longer occupies a slot"""
+        with self.count_lock:
+            self.busy.discard(worker)
+            self.idle.discard(worker)
 
     def notify_done(self, worker):
         with self.count_lock:
